@@ -65,8 +65,9 @@ func healthyIdP(e *harness.AuthEnv, email string) {
 func c07URIs(thorough bool) []string {
 	schemes := []string{"https://", "http://", "HTTPS://", "javascript://", "", "//"}
 	users := []string{"", "app.sso.test@", "x:y@"}
-	// ("app.so.test", "app.o.test": the root domain with its leading characters removed)
-	hosts := []string{"sso.test", "app.sso.test", "app.so.test", "app.o.test", "evil.test", "sso.test.evil.test", "evilsso.test", "app.ssoxtest", "sso-test", "APP.SSO.TEST", "app.sso.test.", "app.sso.test:443", "[::1]", "",
+	// ("app.so.test", "app.o.test": the root domain with its leading characters removed; "test": the root
+	// domain's own parent)
+	hosts := []string{"sso.test", "app.sso.test", "app.so.test", "app.o.test", "evil.test", "sso.test.evil.test", "evilsso.test", "app.ssoxtest", "sso-test", "APP.SSO.TEST", "app.sso.test.", "app.sso.test:443", "[::1]", "", "test",
 		"evil.test%2f.sso.test", "evil.test\\.sso.test", "evil.test\t.sso.test", "evil.test#.sso.test", "evil.test?.sso.test"}
 	tails := []string{"/oauth2/callback", "/cb?next=//evil.test", "/#@evil.test", "/@evil.test"}
 	if !thorough {
@@ -355,6 +356,8 @@ func uriClass(u string) string {
 		return "authority-terminator"
 	case strings.Contains(l, "evil.test"):
 		return "other-host"
+	case strings.Contains(l, "//test/") || strings.Contains(l, "@test/"):
+		return "parent-of-root-domain"
 	case !strings.Contains(u, "://") && !strings.HasPrefix(u, "//"):
 		return "no-scheme"
 	}
@@ -365,7 +368,7 @@ func init() {
 	fw.Register(&fw.Check{
 		ID:    "C07",
 		Level: "exploration",
-		Rule: "full product on the unmodified NewAuthenticatorMux (Okta provider against a scripted IdP over TLS): URI grammar = scheme {https, http, HTTPS, javascript, none, //} x userinfo {none, in-domain-looking@ (thorough: x:y@)} x host {root, sub.root, other, root as prefix of another domain, look-alike suffix, root with its leading characters removed, root with its dot replaced by another character, upper case, trailing dot, with port, IPv6, empty, %2f / backslash / TAB / # / ? inside} x tail {path, query naming another authority (thorough: fragment and path with @)}; " +
+		Rule: "full product on the unmodified NewAuthenticatorMux (Okta provider against a scripted IdP over TLS): URI grammar = scheme {https, http, HTTPS, javascript, none, //} x userinfo {none, in-domain-looking@ (thorough: x:y@)} x host {root, sub.root, other, root as prefix of another domain, look-alike suffix, root with its leading characters removed, the root's own parent domain, root with its dot replaced by another character, upper case, trailing dot, with port, IPv6, empty, %2f / backslash / TAB / # / ? inside} x tail {path, query naming another authority (thorough: fragment and path with @)}; " +
 			"root-domain lists {[sso.test], [.sso.test, other.test]}; signature {valid, valid for another URI, wrong secret, missing, not base64}; ts via the virtual clock {now, -301 s, +1 h, missing, the smallest int64 (thorough: -299 s, non-numeric, smallest int64 + 1, 0, -now, largest int64)}, each validly signed where a signature is valid; " +
 			"endpoints: sign_in with/without authenticator cookie, sign_out GET/POST with/without cookie, start with the URI as nested proxy URI and as outer return URI, callback with the URI carried in state (also with error=access_denied; also with the state /start really records, the authenticator's own sign_in URL carrying the URI with its sig and ts), sign_out POST with the URI in the query and a correctly signed one in the body. " +
 			"Oracle: every 3xx Location other than the IdP's resolves inside the root domains under both an RFC 3986 and a browser-style reading; a code-carrying redirect, a sign-in/sign-out redirect and the start of an IdP login happen only if an independent HMAC-SHA256 recomputation accepts (uri, sig, ts) with ts <= 300 s old; " +
